@@ -383,6 +383,13 @@ def make_edit(shape, r, path, verbs, mode, level, full):
         calls = []
         bitmaps = [bits if k == r else [not b for b in bits] for k in range(nroutes)]
         app, tables, live = build(shape, bitmaps, "upper", calls)
+        # serve the request (and one with an unregistered verb, i.e. 405 unless ANY) BEFORE the edit as well: anything
+        # derived from the method table and cached at first use (e.g. the Allow string) must follow later edits
+        for probe in (verbs[vi], "BREW"):
+            pre = judge(app, shape, tables, live, calls, probe, path, level)
+            if pre:
+                return "before the edit: " + pre
+            del calls[:]
         for i in range(5):
             if second[i]:
                 failed = edit(app, rule, tables[r], r, i, mode, calls)
